@@ -184,7 +184,7 @@ def structure_suite(res, rng, ncls, per=120):
                 "None" if add is None else ("(Some true)" if add is True else "(Some false)" if add is False else "(Some true)"),
                 decl.coq_list(["(%s, %s)" % (s(k), decl.coq_list([s(x) for x in sorted(v)])) for k, v in dep.items()])))
             srcs.append(src)
-    body_head = ("Definition DD : decls := %s.\n"
+    body_tmpl = ("Definition DD : decls := %s.\n"
                  "Definition sl_eqb (a b : list string) : bool := Nat.eqb (List.length a) (List.length b) && forallb (fun p => String.eqb (fst p) (snd p)) (List.combine a b).\n"
                  "Definition sorted_deps (l : list (string * list string)) := l.\n"
                  "Definition scase := (nat * bool * list string * list string * option bool * list (string * list string))%%type.\n"
@@ -193,11 +193,13 @@ def structure_suite(res, rng, ncls, per=120):
                  "  (match gen_additional C, add with Some x, Some y => Bool.eqb x y | None, None => true | _, _ => false end) &&\n"
                  "  Nat.eqb (List.length (gen_dependent C out)) (List.length dep) &&\n"
                  "  forallb (fun p => String.eqb (fst (fst p)) (fst (snd p)) && Nat.eqb (List.length (snd (fst p))) (List.length (snd (snd p)))\n"
-                 "                    && forallb (fun d => str_in d (snd (snd p))) (snd (fst p))) (List.combine (gen_dependent C out) dep) end.\n" % world.decls_term())
+                 "                    && forallb (fun d => str_in d (snd (snd p))) (snd (fst p))) (List.combine (gen_dependent C out) dep) end.\n")
     if not core.build(["Model/SchemaGen.vo"])["ok"]:
         res.broken.append(dict(kind="proof", name="Model/SchemaGen.vo", detail="build failed"))
         return
-    shards = [body_head + "Definition cases : list scase := [\n%s\n].\nGoal True. idtac \"MISMATCH\". exact I. Qed.\nEval vm_compute in (bad_idx sok cases).\n"
+    # each shard carries only the declarations its own cases reach
+    shards = [body_tmpl % world.decls_term_for(lines[s:s + per]) +
+              "Definition cases : list scase := [\n%s\n].\nGoal True. idtac \"MISMATCH\". exact I. Qed.\nEval vm_compute in (bad_idx sok cases).\n"
               % ";\n".join(lines[s:s + per]) for s in range(0, len(lines), per)]
     bad = []
     for k, (rc, out) in enumerate(core.run_sharded("c13struct", ["Parse", "SchemaGen"], shards)):
